@@ -178,9 +178,17 @@ CLAIMED = {
             "increase with area. Over Q (closed): the area target is the sum over the code's own enthalpy intervals of duty x weighted "
             "resistances / LMTD, is positive, balanced spans are equal (LMTD abstract with min/mean hypotheses). Equality with the "
             "independent interval sum recomputed in Q from streams and utility duties is evaluated in coqc on every run (stage calls on "
-            "captured arguments and end-to-end).",
+            "captured arguments and end-to-end). get_temperature_driving_forces is modelled in Q (rounding, guards, normalisation, union "
+            "grid, plateau interpolation, discontinuity block) and equals the implementation array by array on every end-to-end case and "
+            "on synthetic plateau/jump/guard curves; proved for ALL curve pairs (closed): the grid is strictly ascending, consists exactly "
+            "of the break points, its intervals partition the enthalpy range with both curves affine on each; one-sided limits at own "
+            "break points are exact (a jump belongs to neither neighbour); the discontinuity block only lowers dT2, hence the area is only "
+            "over-estimated for any monotone LMTD; refuted with witnesses replayed on the code: exact piecewise-linear values at foreign "
+            "break points next to a plateau (off by <= tol/2 x slope), dT2 = end difference (mechanism of D36).",
             "Axioms: the standard library's real-number axioms (ClassicalDedekindReals.sig_forall_dec, sig_not_dec, functional_extensionality_dep, "
-            "Classical_Prop.classic) via Reals/Coquelicot/Interval. get_temperature_driving_forces is not modelled; open finding D36."),
+            "Classical_Prop.classic) via Reals/Coquelicot/Interval (cost theorems only; the TDF/area theorems over Q are closed). Not proved: "
+            "the composition table -> balanced curves -> driving forces -> resistance mapping -> sum as one theorem (compared stage by "
+            "stage on every run); np.interp modelled for increasing abscissae only; open finding D36."),
     "C16": ("DESIGN.md 8/C16",
             "Theorems (closed) over strings of all 256 code points: whenever sheet-name allocation returns, names are pairwise distinct, not "
             "already used, 1..31 characters, free of : \\ / ? * [ ] and of leading/trailing apostrophes; allocation succeeds whenever fewer "
